@@ -396,36 +396,41 @@ func (c *Ctx) namexRun() *nameVerdicts {
 		c1, o1 := m.Call(cctor)
 		c2, o2 := m.Call(cctor)
 		if o1.kind == "ok" && o2.kind == "ok" {
-			callM(c, m, ct, "SetExpression", c1, "x IS NULL")
-			callM(c, m, ct, "SetExpression", c2, "y + 1")
-			if dv, out := callM(c, m, ct, "DefaultVariables", c2); out.kind == "ok" {
-				if dvi, ok := dv.(mIface); ok {
-					if yv, out := callM(c, m, dvi.t, "FindByName", dvi.v, "y"); out.kind == "ok" {
-						if yi, ok := yv.(mIface); ok {
-							if val, out := callM(c, m, yi.t, "Value", yi.v); out.kind == "ok" {
-								m.Call(c.MustFunc(pkgVariants, "Variant", "SetAsInteger"), val, int64(41))
+			_, s1 := callM(c, m, ct, "SetExpression", c1, "x IS NULL")
+			_, s2 := callM(c, m, ct, "SetExpression", c2, "y + 1")
+			if s1.kind == "opaque" || s2.kind == "opaque" {
+				// a set-up step that left the model leaves its calculator half-updated: nothing is concluded
+				note("separate-instances", "", "two calculators: SetExpression: "+s1.why+s2.why)
+			} else {
+				if dv, out := callM(c, m, ct, "DefaultVariables", c2); out.kind == "ok" {
+					if dvi, ok := dv.(mIface); ok {
+						if yv, out := callM(c, m, dvi.t, "FindByName", dvi.v, "y"); out.kind == "ok" {
+							if yi, ok := yv.(mIface); ok {
+								if val, out := callM(c, m, yi.t, "Value", yi.v); out.kind == "ok" {
+									m.Call(c.MustFunc(pkgVariants, "Variant", "SetAsInteger"), val, int64(41))
+								}
 							}
 						}
 					}
 				}
-			}
-			r, out := callM(c, m, ct, "Evaluate", c1)
-			tp, ok := r.(mTuple)
-			switch {
-			case out.kind == "panic":
-				note("separate-instances", "evaluating ‹x IS NULL› panics: "+out.why, "")
-			case out.kind != "ok" || !ok:
-				note("separate-instances", "", "two calculators: "+out.why)
-			default:
-				res := "error " + errorCode(tp[1])
-				if _, isNil := tp[1].(mNilT); isNil {
-					pl, _ := m.Call(c.MustFunc(pkgVariants, "Variant", "AsObject"), tp[0])
-					res = mRender(pl)
-				}
-				if res != "true" {
-					note("separate-instances", fmt.Sprintf("‹x IS NULL› on one calculator evaluates to %s after the unset variable y of another calculator was given the value 41 in place: unset variables share one null variant", res), "")
-				} else {
-					note("separate-instances", "", "")
+				r, out := callM(c, m, ct, "Evaluate", c1)
+				tp, ok := r.(mTuple)
+				switch {
+				case out.kind == "panic":
+					note("separate-instances", "evaluating ‹x IS NULL› panics: "+out.why, "")
+				case out.kind != "ok" || !ok:
+					note("separate-instances", "", "two calculators: "+out.why)
+				default:
+					res := "error " + errorCode(tp[1])
+					if _, isNil := tp[1].(mNilT); isNil {
+						pl, _ := m.Call(c.MustFunc(pkgVariants, "Variant", "AsObject"), tp[0])
+						res = mRender(pl)
+					}
+					if res != "true" {
+						note("separate-instances", fmt.Sprintf("‹x IS NULL› on one calculator evaluates to %s after the unset variable y of another calculator was given the value 41 in place: unset variables share one null variant", res), "")
+					} else {
+						note("separate-instances", "", "")
+					}
 				}
 			}
 		}
